@@ -22,6 +22,51 @@ def guards_of(node, stop):
     return tuple(reversed(out))
 
 
+def _row_permutations(n, sortvar, mod):
+    """(target name, source name) pairs of an assignment that binds target to source[sortvar].  Spellings:
+         a = a[s]        a, b = a[s], b[s]        a, b = [c[s] for c in (a, b)]        a, b = helper(s, a, b)
+    with helper a module-level function  def helper(order, *columns): return [col[order] for col in columns]."""
+    t, v = n.targets[0], n.value
+
+    def perm(e, var=sortvar):
+        return e.value.id if isinstance(e, ast.Subscript) and isinstance(e.value, ast.Name) and unparse(e.slice) == var else None
+
+    def comp_over(c, order):
+        """[x[order] for x in <it>]  ->  <it>"""
+        if isinstance(c, ast.Call) and dotted(c.func) in ('tuple', 'list') and len(c.args) == 1 and not c.keywords:
+            c = c.args[0]
+        if isinstance(c, (ast.ListComp, ast.GeneratorExp)) and len(c.generators) == 1 and not c.generators[0].ifs \
+                and isinstance(c.generators[0].target, ast.Name) and perm(c.elt, order) == c.generators[0].target.id:
+            return c.generators[0].iter
+        return None
+    if isinstance(t, ast.Name):
+        return [(t.id, perm(v))] if perm(v) else []
+    if not (isinstance(t, (ast.Tuple, ast.List)) and all(isinstance(e, ast.Name) for e in t.elts)):
+        return []
+    names = [e.id for e in t.elts]
+    srcs = None
+    if isinstance(v, (ast.Tuple, ast.List)) and len(v.elts) == len(names):
+        srcs = [perm(e) for e in v.elts]
+    else:
+        it = comp_over(v, sortvar)
+        if it is not None and isinstance(it, (ast.Tuple, ast.List)) and all(isinstance(e, ast.Name) for e in it.elts):
+            srcs = [e.id for e in it.elts]
+        elif isinstance(v, ast.Call) and isinstance(v.func, ast.Name) and not v.keywords and v.args and unparse(v.args[0]) == sortvar \
+                and all(isinstance(a, ast.Name) for a in v.args[1:]):
+            h = [f for f in mod.body if isinstance(f, ast.FunctionDef) and f.name == v.func.id and not f.decorator_list]
+            if len(h) == 1:
+                a = h[0].args
+                body = [b for b in h[0].body if not (isinstance(b, ast.Expr) and isinstance(b.value, ast.Constant))]
+                if len(a.args) == 1 and a.vararg is not None and not a.kwonlyargs and not a.kwarg and not a.defaults \
+                        and len(body) == 1 and isinstance(body[0], ast.Return) and body[0].value is not None:
+                    it2 = comp_over(body[0].value, a.args[0].arg)
+                    if isinstance(it2, ast.Name) and it2.id == a.vararg.arg:
+                        srcs = [x.id for x in v.args[1:]]
+    if srcs is None or len(srcs) != len(names):
+        return []
+    return [(a, b) for a, b in zip(names, srcs) if b]
+
+
 def run(chk):
     src = chk.src
     fn = src.func(HOD, Q)
@@ -78,10 +123,12 @@ def run(chk):
         return
     permuted = {}
     wholesale = False
+    mod = src.tree(HOD)
     for n in walk_no_nested(sortif):
-        if isinstance(n, ast.Assign) and isinstance(n.targets[0], ast.Name) and isinstance(n.value, ast.Subscript) \
-                and isinstance(n.value.value, ast.Name) and n.value.value.id == n.targets[0].id and unparse(n.value.slice) == sortvar:
-            permuted[n.targets[0].id] = guards_of(n, sortif)
+        if isinstance(n, ast.Assign) and len(n.targets) == 1:
+            for tgt, source in _row_permutations(n, sortvar, mod):
+                if tgt == source:
+                    permuted[tgt] = guards_of(n, sortif)
         if isinstance(n, ast.For) and 'halo_data' in unparse(n.iter):
             for b in walk_no_nested(n):
                 if isinstance(b, ast.Assign) and sortvar in unparse(b.value):
